@@ -10,6 +10,12 @@ CLAIMS = {
   ref="DESIGN.md §3 C19"),
 }
 
+CLAIMS["C01"] = dict(
+  text="All-paths structural rules over the scan engine (edge dominance / must-pass-through on SSA): Extract is reached from one dispatch site only, under FileRequired==true of the same extractor and with the lazy file API reset for the current path; one dispatch per (file, extractor) with the loop covering all extractors; directories and non-symlink special files never reach the dispatch; the directory-skip predicate consults all five skip rules, each match leads to skip, the skip list is an exact lookup, SkipDir is returned iff the predicate holds; gitignored files are never dispatched; non-empty results are always attributed and appended; the recursive walker visits every successfully read entry and never originates SkipDir; explicit-path walks reuse the same callbacks and install parent gitignore patterns. Level 'other': necessary conditions for every tree/configuration; matching semantics of glob/regex/gitignore and inventory equality are not decided.",
+  note="Trusted: go/ssa CFGs; anchors resolved by role (callbacks passed to WalkDirUnsorted, the function containing the Extract invoke), unresolved anchors fail; value-level behaviour (pattern matching, prefix stripping) is out of scope.",
+  technique="edge dominance + must-pass-through path search on SSA, same-value provenance",
+  ref="DESIGN.md §3 C01")
+
 NA = {}
 
 
